@@ -4,71 +4,311 @@ package types
 
 import (
 	"context"
+	"time"
 
 	wrapping "github.com/hashicorp/go-kms-wrapping/v2"
 	"github.com/hashicorp/go-kms-wrapping/v2/aead"
 	"github.com/hashicorp/nodeenrollment"
 	"github.com/hashicorp/nodeenrollment/zzverif/vf"
 	"google.golang.org/protobuf/proto"
+	"google.golang.org/protobuf/types/known/structpb"
 	"google.golang.org/protobuf/types/known/timestamppb"
 )
 
-var VfHarnesses = map[string]func(){"VerifC12NodeInfo": VerifC12NodeInfo, "VerifC12Token": VerifC12Token}
-
-// vfRecorder checks everything handed to Storage.Store against the secrets of the run.
-type vfRecorder struct {
-	secrets [][]byte
-	last    nodeenrollment.MessageWithId
-	clean   bool
+var VfHarnesses = map[string]func(){
+	"VerifC12NodeInfo": VerifC12NodeInfo, "VerifC12NodeCreds": VerifC12NodeCreds, "VerifC12Roots": VerifC12Roots, "VerifC12Token": VerifC12Token,
 }
 
-func (r *vfRecorder) Store(ctx context.Context, m nodeenrollment.MessageWithId) error {
-	r.last = m
-	r.clean = vf.SecretFree(m, r.secrets...)
+// vfTStore is a marshal-based Storage like the real back ends, local to this package (package types cannot import
+// the shared harness package, which imports types). It keeps the last message handed to Store for the secrecy
+// obligation and lets the harness edit stored bytes.
+type vfTEntry struct {
+	kind, id string
+	data     []byte
+}
+type vfTStore struct {
+	entries []vfTEntry
+	last    nodeenrollment.MessageWithId
+}
+
+func vfTKind(m proto.Message) string {
+	switch m.(type) {
+	case *NodeInformation:
+		return "node"
+	case *RootCertificates:
+		return "roots"
+	case *NodeCredentials:
+		return "creds"
+	case *ServerLedActivationToken:
+		return "token"
+	}
+	return "?"
+}
+func (s *vfTStore) Store(ctx context.Context, m nodeenrollment.MessageWithId) error {
+	b, err := proto.Marshal(m)
+	if err != nil {
+		return err
+	}
+	s.last = m
+	k := vfTKind(m)
+	for i := range s.entries {
+		if s.entries[i].kind == k && s.entries[i].id == m.GetId() {
+			s.entries[i].data = b
+			return nil
+		}
+	}
+	s.entries = append(s.entries, vfTEntry{k, m.GetId(), b})
 	return nil
 }
-func (r *vfRecorder) Load(ctx context.Context, m nodeenrollment.MessageWithId) error {
+func (s *vfTStore) Load(ctx context.Context, m nodeenrollment.MessageWithId) error {
+	k := vfTKind(m)
+	for _, e := range s.entries {
+		if e.kind == k && e.id == m.GetId() {
+			return proto.Unmarshal(e.data, m)
+		}
+	}
 	return nodeenrollment.ErrNotFound
 }
-func (r *vfRecorder) Remove(ctx context.Context, m nodeenrollment.MessageWithId) error { return nil }
-func (r *vfRecorder) List(ctx context.Context, m proto.Message) ([]string, error)     { return nil, nil }
+func (s *vfTStore) Remove(ctx context.Context, m nodeenrollment.MessageWithId) error { return nil }
+func (s *vfTStore) List(ctx context.Context, m proto.Message) ([]string, error)     { return nil, nil }
+func (s *vfTStore) put(m nodeenrollment.MessageWithId) {
+	if err := s.Store(context.Background(), m); err != nil {
+		panic(err)
+	}
+}
 
-func vfWrapper() wrapping.Wrapper {
+func vfWrapperK(k int) wrapping.Wrapper {
 	w := aead.NewWrapper()
 	if _, err := w.SetConfig(context.Background(), wrapping.WithKeyId("w1")); err != nil {
 		panic(err)
 	}
-	if err := w.SetAesGcmKeyBytes(vf.X25519Priv(7)); err != nil {
+	if err := w.SetAesGcmKeyBytes(vf.X25519Priv(k)); err != nil {
 		panic(err)
 	}
 	return w
 }
+func vfWrapper() wrapping.Wrapper { return vfWrapperK(7) }
 
-// C12 for node records: with a storage wrapper no private key reaches Storage.Store in clear.
+func vfState(v string) *structpb.Struct {
+	return &structpb.Struct{Fields: map[string]*structpb.Value{"k": {Kind: &structpb.Value_StringValue{StringValue: v}}}}
+}
+
+// vfLoadOpts: which wrapper the loader holds: the same one, none, or a different one.
+func vfLoadOpts(which int) []nodeenrollment.Option {
+	switch which {
+	case 0:
+		return []nodeenrollment.Option{nodeenrollment.WithStorageWrapper(vfWrapper())}
+	case 1:
+		return nil
+	}
+	return []nodeenrollment.Option{nodeenrollment.WithStorageWrapper(vfWrapperK(6))}
+}
+
+// C12 for node records (server side): with a storage wrapper no server encryption private key reaches Storage.Store in
+// clear; loading with the same wrapper returns what was stored; loading without or with another wrapper fails; a
+// sealed key transplanted into another node's record does not open.
 func VerifC12NodeInfo() {
 	ctx := context.Background()
 	cur, prev := vf.X25519Priv(1), vf.X25519Priv(2)
-	rec := &NodeInformation{Id: "node", CertificatePublicKeyPkix: vf.Pkix(0), ServerEncryptionPrivateKeyBytes: cur, ServerEncryptionPrivateKeyType: KEYTYPE_X25519}
-	if vf.Bool("has-previous-key") {
+	rec := &NodeInformation{Id: "node-a", CertificatePublicKeyPkix: vf.Pkix(0), ServerEncryptionPrivateKeyBytes: cur, ServerEncryptionPrivateKeyType: KEYTYPE_X25519,
+		EncryptionPublicKeyBytes: vf.X25519Pub(3), EncryptionPublicKeyType: KEYTYPE_X25519}
+	hasPrev := vf.Bool("has-previous-key")
+	if hasPrev {
 		rec.PreviousEncryptionKey = &EncryptionKey{KeyId: "old", PrivateKeyPkcs8: prev, PrivateKeyType: KEYTYPE_X25519}
 	}
-	st := &vfRecorder{secrets: [][]byte{cur}}
+	if vf.Bool("has-state") {
+		rec.State = vfState(vf.String("state", 8))
+	}
+	st := &vfTStore{}
 	err := rec.Store(ctx, st, nodeenrollment.WithStorageWrapper(vfWrapper()))
 	vf.Assert("store-ok", err == nil)
-	vf.Assert("no-private-key-in-clear", st.clean)
+	vf.Assert("caller-record-not-modified", vf.EqBytes(rec.ServerEncryptionPrivateKeyBytes, cur))
+	vf.Assert("no-private-key-in-clear", vf.SecretFree(st.last, cur))
 	vf.Assert("nodeinfo-previous-private-key-not-in-clear", vf.SecretFree(st.last, prev))
-	vf.Reach("end")
+	which := vf.Int("loader-wrapper", 0, 2)
+	transplant := vf.Bool("sealed-key-transplanted-from-another-record")
+	if transplant {
+		other := &NodeInformation{Id: "node-b", CertificatePublicKeyPkix: vf.Pkix(1), ServerEncryptionPrivateKeyBytes: vf.X25519Priv(4), ServerEncryptionPrivateKeyType: KEYTYPE_X25519}
+		if err := other.Store(ctx, st, nodeenrollment.WithStorageWrapper(vfWrapper())); err != nil {
+			panic(err)
+		}
+		stolen := st.last.(*NodeInformation).ServerEncryptionPrivateKeyBytes
+		victim := new(NodeInformation)
+		if err := st.Load(ctx, &NodeInformation{Id: "node-a"}); err != nil {
+			panic(err)
+		}
+		victim.Id = "node-a"
+		if err := st.Load(ctx, victim); err != nil {
+			panic(err)
+		}
+		victim.ServerEncryptionPrivateKeyBytes = stolen
+		st.put(victim)
+	}
+	got, lerr := LoadNodeInformation(ctx, st, "node-a", vfLoadOpts(which)...)
+	if lerr == nil {
+		vf.Reach("loaded")
+		vf.Assert("loads-only-with-the-same-wrapper", which == 0)
+		vf.Assert("transplanted-field-does-not-open", !transplant)
+		vf.Assert("round-trip-private-key", vf.EqBytes(got.ServerEncryptionPrivateKeyBytes, cur))
+		vf.Assert("round-trip-public-parts", vf.And(vf.EqBytes(got.CertificatePublicKeyPkix, rec.CertificatePublicKeyPkix), vf.EqBytes(got.EncryptionPublicKeyBytes, rec.EncryptionPublicKeyBytes)))
+		if hasPrev {
+			vf.Assert("round-trip-previous-key", vf.EqBytes(got.PreviousEncryptionKey.PrivateKeyPkcs8, prev))
+		}
+	} else {
+		vf.Reach("load-refused")
+		vf.Assert("same-wrapper-loads", vf.Not(vf.And(which == 0, !transplant)))
+	}
 }
 
-// C12 for activation tokens: the creation time is handed to storage only sealed.
+// C12 for node credentials (node side): certificate private key, encryption private key and registration nonce.
+func VerifC12NodeCreds() {
+	ctx := context.Background()
+	certPriv, encPriv, nonce, prev := vf.Pkcs8(2), vf.X25519Priv(1), vf.Bytes("registration-nonce", 32), vf.X25519Priv(2)
+	creds := &NodeCredentials{Id: string(nodeenrollment.CurrentId), CertificatePublicKeyPkix: vf.Pkix(2), CertificatePrivateKeyPkcs8: certPriv, CertificatePrivateKeyType: KEYTYPE_ED25519,
+		EncryptionPrivateKeyBytes: encPriv, EncryptionPrivateKeyType: KEYTYPE_X25519}
+	hasNonce := vf.Bool("has-registration-nonce")
+	if hasNonce {
+		vf.Assume(len(nonce) == nodeenrollment.NonceSize) // a real nonce; a 1-byte value occurs in any byte string by chance
+		creds.RegistrationNonce = nonce
+	}
+	hasPrev := vf.Bool("has-previous-key")
+	if hasPrev {
+		creds.PreviousEncryptionKey = &EncryptionKey{KeyId: "old", PrivateKeyPkcs8: prev, PrivateKeyType: KEYTYPE_X25519}
+	}
+	if vf.Bool("has-bundles") {
+		creds.CertificateBundles = []*CertificateBundle{{CertificateDer: []byte("leaf"), CaCertificateDer: []byte("ca")}}
+	}
+	st := &vfTStore{}
+	err := creds.Store(ctx, st, nodeenrollment.WithStorageWrapper(vfWrapper()))
+	vf.Assert("store-ok", err == nil)
+	vf.Assert("certificate-private-key-not-in-clear", vf.SecretFree(st.last, certPriv))
+	vf.Assert("encryption-private-key-not-in-clear", vf.SecretFree(st.last, encPriv))
+	if hasNonce {
+		vf.Assert("registration-nonce-not-in-clear", vf.SecretFree(st.last, nonce))
+	}
+	vf.Assert("nodecreds-previous-private-key-not-in-clear", vf.SecretFree(st.last, prev))
+	which := vf.Int("loader-wrapper", 0, 2)
+	// a sealed field of another credentials record (the "next" one, other certificate key) moved into this record
+	transplant := vf.Int("transplanted-field", 0, 3)
+	if transplant != 0 {
+		other := &NodeCredentials{Id: string(nodeenrollment.NextId), CertificatePublicKeyPkix: vf.Pkix(3), CertificatePrivateKeyPkcs8: vf.Pkcs8(3), CertificatePrivateKeyType: KEYTYPE_ED25519,
+			EncryptionPrivateKeyBytes: vf.X25519Priv(4), EncryptionPrivateKeyType: KEYTYPE_X25519, RegistrationNonce: []byte("another-registration-nonce-32-by")}
+		if err := other.Store(ctx, st, nodeenrollment.WithStorageWrapper(vfWrapper())); err != nil {
+			panic(err)
+		}
+		src := st.last.(*NodeCredentials)
+		victim := &NodeCredentials{Id: string(nodeenrollment.CurrentId)}
+		if err := st.Load(ctx, victim); err != nil {
+			panic(err)
+		}
+		switch transplant {
+		case 1:
+			victim.CertificatePrivateKeyPkcs8 = src.CertificatePrivateKeyPkcs8
+		case 2:
+			victim.EncryptionPrivateKeyBytes = src.EncryptionPrivateKeyBytes
+		default:
+			victim.RegistrationNonce = src.RegistrationNonce
+		}
+		st.put(victim)
+	}
+	got, lerr := LoadNodeCredentials(ctx, st, nodeenrollment.CurrentId, vfLoadOpts(which)...)
+	if lerr == nil {
+		vf.Reach("loaded")
+		vf.Assert("loads-only-with-the-same-wrapper", which == 0)
+		vf.Assert("transplanted-field-does-not-open", transplant == 0)
+		vf.Assert("round-trip", vf.And(vf.EqBytes(got.CertificatePrivateKeyPkcs8, certPriv), vf.EqBytes(got.EncryptionPrivateKeyBytes, encPriv)))
+		if hasNonce {
+			vf.Assert("round-trip-nonce", vf.EqBytes(got.RegistrationNonce, nonce))
+		} else {
+			vf.Assert("round-trip-no-nonce", len(got.RegistrationNonce) == 0)
+		}
+	} else {
+		vf.Reach("load-refused")
+		vf.Assert("same-wrapper-loads", vf.Not(vf.And(which == 0, transplant == 0)))
+	}
+}
+
+// C12 for the root set: both root private keys, with or without application state on the same call.
+func VerifC12Roots() {
+	ctx := context.Background()
+	t0 := vf.Now()
+	k0, k1 := vf.Pkcs8(0), vf.Pkcs8(1)
+	mk := func(id string, k int, priv []byte) *RootCertificate {
+		return &RootCertificate{Id: id, PublicKeyPkix: vf.Pkix(k), PrivateKeyPkcs8: priv, PrivateKeyType: KEYTYPE_ED25519, CertificateDer: []byte("der"),
+			NotBefore: timestamppb.New(t0.Add(-time.Hour)), NotAfter: timestamppb.New(t0.Add(time.Hour))}
+	}
+	roots := &RootCertificates{Id: string(nodeenrollment.RootsMessageId), Current: mk("current", 0, k0), Next: mk("next", 1, k1)}
+	opts := []nodeenrollment.Option{nodeenrollment.WithStorageWrapper(vfWrapper())}
+	withState := vf.Bool("store-with-state")
+	if withState {
+		opts = append(opts, nodeenrollment.WithState(vfState(vf.String("state", 8))))
+	}
+	st := &vfTStore{}
+	err := roots.Store(ctx, st, opts...)
+	vf.Assert("store-ok", err == nil)
+	vf.Assert("current-root-private-key-not-in-clear", vf.SecretFree(st.last, k0))
+	vf.Assert("next-root-private-key-not-in-clear", vf.SecretFree(st.last, k1))
+	vf.Assert("caller-roots-not-modified", vf.And(vf.EqBytes(roots.Current.PrivateKeyPkcs8, k0), vf.EqBytes(roots.Next.PrivateKeyPkcs8, k1)))
+	which := vf.Int("loader-wrapper", 0, 2)
+	swap := vf.Bool("sealed-keys-swapped-between-the-two-roots")
+	if swap {
+		stored := &RootCertificates{Id: string(nodeenrollment.RootsMessageId)}
+		if err := st.Load(ctx, stored); err != nil {
+			panic(err)
+		}
+		stored.Current.PrivateKeyPkcs8, stored.Next.PrivateKeyPkcs8 = stored.Next.PrivateKeyPkcs8, stored.Current.PrivateKeyPkcs8
+		st.put(stored)
+	}
+	got, lerr := LoadRootCertificates(ctx, st, vfLoadOpts(which)...)
+	if lerr == nil {
+		vf.Reach("loaded")
+		vf.Assert("loads-only-with-the-same-wrapper", which == 0)
+		vf.Assert("transplanted-field-does-not-open", !swap)
+		vf.Assert("round-trip", vf.And(vf.EqBytes(got.Current.PrivateKeyPkcs8, k0), vf.EqBytes(got.Next.PrivateKeyPkcs8, k1)))
+	} else {
+		vf.Reach("load-refused")
+		vf.Assert("same-wrapper-loads", vf.Not(vf.And(which == 0, !swap)))
+	}
+}
+
+// C12 for activation tokens: the creation time is handed to storage only sealed (bound to the token ID).
 func VerifC12Token() {
 	ctx := context.Background()
-	created := timestamppb.New(vf.Now())
-	tok := &ServerLedActivationToken{Id: "token-id", CreationTime: created}
-	st := &vfRecorder{}
+	created := vf.Now()
+	tok := &ServerLedActivationToken{Id: "token-id", CreationTime: timestamppb.New(created)}
+	if vf.Bool("has-state") {
+		tok.State = vfState(vf.String("state", 8))
+	}
+	st := &vfTStore{}
 	err := tok.Store(ctx, st, nodeenrollment.WithStorageWrapper(vfWrapper()))
 	vf.Assert("store-ok", err == nil)
 	stored := st.last.(*ServerLedActivationToken)
 	vf.Assert("creation-time-not-in-clear", stored.CreationTime == nil)
-	vf.Reach("end")
+	plain, _ := proto.Marshal(timestamppb.New(created))
+	vf.Assert("marshaled-creation-time-not-in-clear", vf.SecretFree(stored, plain))
+	which := vf.Int("loader-wrapper", 0, 2)
+	transplant := vf.Bool("sealed-time-transplanted-from-another-token")
+	if transplant {
+		other := &ServerLedActivationToken{Id: "other-token", CreationTime: timestamppb.New(created.Add(time.Hour))}
+		if err := other.Store(ctx, st, nodeenrollment.WithStorageWrapper(vfWrapper())); err != nil {
+			panic(err)
+		}
+		stolen := st.last.(*ServerLedActivationToken).CreationTimeMarshaled
+		victim := &ServerLedActivationToken{Id: "token-id"}
+		if err := st.Load(ctx, victim); err != nil {
+			panic(err)
+		}
+		victim.CreationTimeMarshaled = stolen
+		st.put(victim)
+	}
+	got, lerr := LoadServerLedActivationToken(ctx, st, "token-id", vfLoadOpts(which)...)
+	if lerr == nil {
+		vf.Reach("loaded")
+		vf.Assert("loads-only-with-the-same-wrapper", which == 0)
+		vf.Assert("transplanted-field-does-not-open", !transplant)
+		vf.Assert("round-trip", vf.TimeEq(got.CreationTime.AsTime(), created))
+	} else {
+		vf.Reach("load-refused")
+		vf.Assert("same-wrapper-loads", vf.Not(vf.And(which == 0, !transplant)))
+	}
 }
